@@ -229,7 +229,7 @@ func (g *G) dur(role, def string) time.Duration {
 	return durByText(t)
 }
 
-var regexAlts = []string{"a", "a.*", "a/b", "^(a|b)$", `\d+`, "[a-z]{2}", `a\\/b`, `\\/`}
+var regexAlts = []string{"a", "a.*", "a/b", "^(a|b)$", `\d+`, "[a-z]{2}", `a\\/b`, `\\/`, `a"b`, `it's`}
 
 func (g *G) regex(role string) *influxql.RegexLiteral {
 	src := g.value(REGEX, role, regexAlts[g.pick(len(regexAlts))])
